@@ -686,8 +686,10 @@ def c_rx(a):
 def impl_regex(case):
     from behave.matchers import SimplifiedRegexMatcher, CucumberRegexMatcher
 
+    got = []
+
     def func(context, *a, **kw):
-        pass
+        got.append([list(a), sorted(kw.items())])
     pattern = render_rx(case["rx"])
     try:
         if case["kind"] == "re":
@@ -700,7 +702,16 @@ def impl_regex(case):
         return {"EXC": "%s: %s" % (type(e).__name__, e), "pattern": pattern}
     if args is None:
         return {"match": None, "pattern": pattern}
-    return {"match": [[a.start, a.end, a.original, a.name] for a in args], "pattern": pattern}
+    # what the step function receives when the match is run
+    call = None
+    try:
+        from behave.matchers import Match
+        Match(func, args).run(_Ctx())
+        call = got[-1] if got else None
+    except Exception as e:      # noqa
+        call = ["EXC", "%s: %s" % (type(e).__name__, e)]
+    return {"match": [[a.start, a.end, a.original, a.name] for a in args], "pattern": pattern,
+            "values": [[a.name, a.value] for a in args], "call": call}
 
 
 def oracle_regex(case, obs):
@@ -720,7 +731,13 @@ def oracle_regex(case, obs):
     for a in obs["match"] or []:
         if a[0] is not None and a[0] >= 0 and text[a[0]:a[1]] != a[2]:
             out.append(("argument %r: text[%d:%d] is %r, original %r" % (a[3], a[0], a[1], text[a[0]:a[1]], a[2]), "span-does-not-delimit-original"))
-    starts = [a[0] for a in obs["match"] or [] if a[0] is not None and a[0] >= 0]
+    if obs.get("match") is not None and "call" in obs:
+        want_pos = [v for n, v in obs["values"] if n is None]
+        want_kw = sorted([n, v] for n, v in obs["values"] if n is not None)
+        call = obs["call"]
+        if call is None or call[0] == "EXC" or call[0] != want_pos or [list(x) for x in call[1]] != want_kw:
+            out.append(("pattern %r on %r: the step function is called with %r, the match has positional %r (in group order) and named %r" % (
+                obs["pattern"], text, call, want_pos, want_kw), "call-arguments"))
     return out
 
 
